@@ -152,7 +152,15 @@ func (e *Expr) Eval(data interface{}) (interface{}, error) {
 		return nil, fmt.Errorf("Eval returned a non-interface value")
 	}
 
-	if result.Kind() == reflect.Ptr && result.IsNil() {
+	// The JSON value null is represented by a nil pointer,
+	// which may be wrapped in an interface (e.g. when it is
+	// an element of an array). Return it as a plain nil.
+	v := result
+	for v.Kind() == reflect.Interface && !v.IsNil() {
+		v = v.Elem()
+	}
+
+	if v.Kind() == reflect.Ptr && v.IsNil() {
 		return nil, nil
 	}
 
